@@ -3,6 +3,7 @@ package main
 
 import (
 	"fmt"
+	"os"
 	"reflect"
 	"runtime"
 	"strings"
@@ -77,6 +78,35 @@ func invoke(m reflect.Value, in []reflect.Value) (out []reflect.Value, e any) {
 	defer func() { e = recover() }()
 	out = m.Call(in)
 	return out, nil
+}
+
+// debugFailer forwards to a vlib.T and, when the environment variable
+// C07_DEBUG_LOG names a file, appends every failure to it (triage aid only).
+type debugFailer struct {
+	t failer
+}
+
+func (d debugFailer) Failf(format string, a ...any) {
+	debugLog("", format, a...)
+	d.t.Failf(format, a...)
+}
+
+func (d debugFailer) FailClass(class, format string, a ...any) {
+	debugLog(class, format, a...)
+	d.t.FailClass(class, format, a...)
+}
+
+func debugLog(class, format string, a ...any) {
+	p := os.Getenv("C07_DEBUG_LOG")
+	if p == "" {
+		return
+	}
+	f, err := os.OpenFile(p, os.O_APPEND|os.O_CREATE|os.O_WRONLY, 0o644)
+	if err != nil {
+		return
+	}
+	fmt.Fprintf(f, "[%s] %s\n", class, fmt.Sprintf(format, a...))
+	f.Close()
 }
 
 // run calls f and returns the recovered panic value.
